@@ -24,7 +24,7 @@ PROP = dict(
     tags=[],
     units=[
         U("precedence", "./cmd", "^TestVerifC31_(PrecedenceExhaustive|RoundTripDefault)$", 0, 0, sq=1, sth=1, rapid=False),
-        U("multi", "./cmd", "^TestVerifC31_PrecedenceMulti$", 1500, 60000, sq=3, sth=8),
-        U("roundtrip", "./cmd", "^TestVerifC31_RoundTrip$", 900, 30000, sq=3, sth=8),
+        U("multi", "./cmd", "^TestVerifC31_PrecedenceMulti$", 1500, 32000, sq=3, sth=8),
+        U("roundtrip", "./cmd", "^TestVerifC31_RoundTrip$", 900, 16000, sq=3, sth=8),
     ],
 )
